@@ -694,6 +694,38 @@ func TestC12_P_FailHealContinue(t *testing.T) {
 				t.Fatalf("C12 [%s] %s buf=%d: after the failed read the reader reports position %d (err %v) but %d bytes were delivered", fc.Desc, route, bufSize, pos, err, len(delivered))
 			}
 		}
+		// a Seek to a position strictly inside the missing block's span while the block is still unavailable: it may report
+		// the load error (the position is then set again after healing) or succeed; either way the bytes read after the
+		// block is back are those AT that position
+		expected := fc.Data
+		if missEnd := func() int64 {
+			for _, n := range all {
+				if n.Cid == missing {
+					return n.End
+				}
+			}
+			return -1
+		}(); route == "Reify" && missEnd-firstStart >= 2 && int64(len(delivered)) == firstStart && rapid.Bool().Draw(t, "seekIntoMissingSpan") {
+			target := firstStart + 1 + int64(rapid.IntRange(0, int(missEnd-firstStart-2)).Draw(t, "seekInside"))
+			var pos int64
+			var serr error
+			must(t, "seek into the missing span", func() { pos, serr = rs.Seek(target, io.SeekStart) })
+			if serr == nil && pos != target {
+				t.Fatalf("C12 [%s] buf=%d: Seek(%d) into the span of the unavailable block returned position %d", fc.Desc, bufSize, target, pos)
+			}
+			if serr != nil && !isInjected(serr) {
+				t.Fatalf("C12 [%s] buf=%d: Seek(%d) into the span of the unavailable block: %v (not the load error)", fc.Desc, bufSize, target, serr)
+			}
+			fc.St.Missing = map[cid.Cid]bool{}
+			if serr != nil {
+				must(t, "seek again after healing", func() { pos, serr = rs.Seek(target, io.SeekStart) })
+				if serr != nil || pos != target {
+					t.Fatalf("C12 [%s] buf=%d: Seek(%d) after the block came back = (%d, %v)", fc.Desc, bufSize, target, pos, serr)
+				}
+			}
+			expected = append(append([]byte{}, fc.Data[:firstStart]...), fc.Data[target:]...)
+			ev.Count("seek-into-missing-span", 1)
+		}
 		// heal and continue, tolerating repeated errors for a few retries
 		fc.St.Missing = map[cid.Cid]bool{}
 		retries := 0
@@ -713,8 +745,8 @@ func TestC12_P_FailHealContinue(t *testing.T) {
 				}
 			}
 		})
-		if !bytes.Equal(delivered, fc.Data) {
-			t.Fatalf("C12 [%s] %s buf=%d (missing span start %d): bytes delivered before the error plus bytes read after the block came back = %d bytes, first difference at %d, file has %d (retries %d, last err %v)", fc.Desc, route, bufSize, firstStart, len(delivered), firstDiff(delivered, fc.Data), len(fc.Data), retries, ferr)
+		if !bytes.Equal(delivered, expected) {
+			t.Fatalf("C12 [%s] %s buf=%d (missing span start %d): bytes delivered before the error plus bytes read after the block came back (from the position the reader was then at) = %d bytes, first difference at %d, expected %d (retries %d, last err %v)", fc.Desc, route, bufSize, firstStart, len(delivered), firstDiff(delivered, expected), len(expected), retries, ferr)
 		}
 		ev.Case(fmt.Sprintf("%s d=%d %s buf=%s", fc.Writer, fc.Tree.Depth(), route, bucket(bufSize)), true, "route:"+route, "buf:"+bucket(bufSize))
 		ev.Sample(map[string]any{"file": fc.Desc, "route": route, "buf": bufSize, "missing_span_start": firstStart})
